@@ -672,6 +672,31 @@ static void p5_run(uint64_t idx, vh_rng_t * rng) {
     kflush();
 }
 
+/* ---- phase "uptime": a context that has been up for a long time - its queue has carried 2^16 (quick) or 2^32 (thorough, default flavour, one
+ * case) errors without ever being cleared or re-initialised - still answers the error query with the entry that is next in line ----------------- */
+static uint64_t p6_count(int thorough) { (void) thorough; return 2; }
+static void p6_run(uint64_t idx, vh_rng_t * rng) {
+    vh_ctx_t * v = vh_ctx_new(cmds, 64, 17, HEAP_SIZE); uint64_t total = 70000, i; int k; (void) rng; /* 17 entries, as in the shipped examples: not a power of two */
+    v->log_enabled = 0; establish_fallback();
+    if (vh_args.thorough && VH_FLAVOUR_DEFAULT && !VH_ASAN && idx == 1) total = (1ull << 32) + 1000;
+    vh_case_desc("uptime: error query after %llu errors went through the queue (capacity 17, never cleared)", (unsigned long long) total);
+    vh_watchdog(3600);
+    /* keep 3 text-less entries pending while the counters run up */
+    for (i = 0; i < 3; i++) SCPI_ErrorPush(v->ctx, -100);
+    for (i = 0; i < total; i++) { scpi_error_t e; SCPI_ErrorPush(v->ctx, -100); SCPI_ErrorPop(v->ctx, &e); if ((i & 0xffffff) == 0) vh_watchdog(3600); }
+    for (i = 0; i < 3; i++) { scpi_error_t e; SCPI_ErrorPop(v->ctx, &e); }
+    /* now the property's own flows on this context */
+    for (k = 0; k < 6; k++) {
+        static const unsigned char t1[] = "fir\"st", t2[] = "second";
+        flow_single(v, -101 - k, t1, sizeof t1 - 1, k & 1, 1, (unsigned) k);
+        { entry_t a, b; push_entry(v, -113, t2, sizeof t2 - 1, 1, &a, "two entries pending after a long uptime", 0); push_entry(v, -222, t1, sizeof t1 - 1, 0, &b, "two entries pending after a long uptime", 1); query_and_check(v, &a); query_and_check(v, &b); }
+    }
+    vh_eval(total);
+    vh_count(total > 100000 ? "uptime.queries_after_more_than_2^32_errors" : "uptime.queries_after_70000_errors", 1);
+    vh_ctx_free(v);
+    kflush();
+}
+
 int main(int argc, char ** argv) {
     static const vh_phase_t phases[] = {
         { "codes", p0_count, p0_run },
@@ -680,9 +705,10 @@ int main(int argc, char ** argv) {
         { "random", p3_count, p3_run },
         { "exactsrc", p4_count, p4_run },
         { "wraplimit", p5_count, p5_run },
+        { "uptime", p6_count, p6_run },
     };
     vh_decoy_enable(7); vh_require("reentrant.error_pushed_from_error_callback_during_query"); vh_require("reentrant.error_pushed_from_write_callback_during_query"); vh_require("decoy.messages_run_on_a_second_context"); vh_require("query");
-    vh_require("text.present");
+    vh_require("text.present"); vh_require("uptime.queries_after_70000_errors");
     vh_require("text.none");
     vh_require("content.cut");
     vh_require("content.complete_exactly_at_limit");
@@ -700,5 +726,5 @@ int main(int argc, char ** argv) {
     vh_require("heap.wrapped_near_cut");
     vh_require("heap.wrapped_quote_at_split");
 #endif
-    return vh_main(argc, argv, "C18", phases, 6);
+    return vh_main(argc, argv, "C18", phases, 7);
 }
